@@ -26,6 +26,10 @@ func verifKeyDescriptors(tag string, max int) []KeyDescriptor {
 			verifAssume(kd.Use != "encryption")
 			verifAssume(kd.Use != "")
 		}
+		if verifChoose(t+".encmethods", 2) == 1 {
+			// a list of preferred algorithms does not make the key any less advertised
+			kd.EncryptionMethods = []EncryptionMethod{{Algorithm: verifNondetString(t + ".encmethod")}}
+		}
 		nc := verifChoose(t+".ncerts", 3)
 		for j := 0; j < nc; j++ {
 			tt := t + "." + strconv.Itoa(j)
